@@ -51,6 +51,9 @@ pub struct E3Scn {
     pub steps: Vec<E3Step>,
     /// how the run is ended: signal number of the final interrupt/terminate (2 or 15)
     pub final_signal: i32,
+    /// `--map-signal FROM:TO` (TO = None: discard). A mapped interrupt / terminate no longer quits.
+    #[serde(default)]
+    pub map_signals: Vec<(String, Option<String>)>,
 }
 
 impl E3Scn {
@@ -75,6 +78,9 @@ impl E3Scn {
         if self.postpone {
             v.push("--postpone".into());
         }
+        for (from, to) in &self.map_signals {
+            v.push(format!("--map-signal={from}:{}", to.as_deref().unwrap_or("")));
+        }
         v.push("--".into());
         v.push("simcmd".into());
         v.push("arg".into());
@@ -86,6 +92,15 @@ impl E3Scn {
             "signal"
         } else {
             self.mode.as_str()
+        }
+    }
+    /// what the CLI does with signal `sig` sent to watchexec: Some(n) = passes n on to the command, None = discards it.
+    /// (Unmapped interrupt / terminate quit instead: the caller knows.)
+    pub fn passed_on_as(&self, sig: i32) -> Option<i32> {
+        match self.map_signals.iter().find(|(from, _)| sig_no(from) == sig) {
+            Some((_, Some(to))) => Some(sig_no(to)),
+            Some((_, None)) => None,
+            None => Some(sig),
         }
     }
     pub fn stop_sig_no(&self) -> i32 {
